@@ -1,13 +1,13 @@
 package main
 
 import (
-	"path/filepath"
 	"archive/zip"
 	"bytes"
 	"context"
 	"fmt"
 	"io"
 	"os"
+	"path/filepath"
 	"strings"
 	"time"
 
@@ -287,7 +287,9 @@ func unpackZipEngine(c *Ctx) {
 		}
 	}
 	// permanent corpus: the traps of the tar stream, in zip clothing, plus zip's own
-	file := func(n string) RawHdr { return RawHdr{Name: n, Typeflag: '0', Mode: 0644, Sec: 1e9, Content: []byte("c")} }
+	file := func(n string) RawHdr {
+		return RawHdr{Name: n, Typeflag: '0', Mode: 0644, Sec: 1e9, Content: []byte("c")}
+	}
 	dir := func(n string) RawHdr { return RawHdr{Name: n, Typeflag: '5', Mode: 0755, Sec: 1e9} }
 	typed := func(n string, tf byte) RawHdr { return RawHdr{Name: n, Typeflag: tf, Mode: 0666, Sec: 1e9} }
 	corpus := [][]RawHdr{
